@@ -67,7 +67,7 @@ type DenomCfg struct {
 	Denom    string
 	Display  string
 	Decimals uint64
-	Balance  math.Int        // genesis balance per account
+	Balance  math.Int       // genesis balance per account
 	Price    math.LegacyDec // initial oracle price
 }
 
@@ -83,10 +83,11 @@ type Config struct {
 	VestNowFactor int64
 	MaxVestings   int64
 	EnableVestNow bool
-	EdenClaimed   int64  // claimable Eden every user starts with (genesis commitment records)
-	Inflation     uint64 // tokenomics LM / staking reward Eden per year (0 = none)
-	BlocksPerYear uint64 // parameter TotalBlocksPerYear (0 = default)
-	LevelDBDir    string // "" => MemDB
+	EdenClaimed   int64                                     // claimable Eden every user starts with (genesis commitment records)
+	Inflation     uint64                                    // tokenomics LM / staking reward Eden per year (0 = none)
+	BlocksPerYear uint64                                    // parameter TotalBlocksPerYear (0 = default)
+	Airdrops      bool                                      // tokenomics genesis airdrops for every 4th account (intent == authority == account)
+	LevelDBDir    string                                    // "" => MemDB
 	GenesisMut    func(a *app.ElysApp, gs app.GenesisState) // optional extra genesis edits
 }
 
@@ -175,7 +176,7 @@ type World struct {
 	Val     *cmttypes.Validator
 	ValOper sdk.ValAddress
 	Prices  map[string]math.LegacyDec // display -> price fed by the default feeder
-	Silent  map[string]bool            // display -> feeder silent
+	Silent  map[string]bool           // display -> feeder silent
 	Blocks  []*BlockRecord
 	KeepLog int // number of block records kept (0 = all)
 	Dead    bool
@@ -386,6 +387,17 @@ func BuildGenesis(a *app.ElysApp, cfg Config, all []*Actor, feeders []*Actor, vo
 		}
 	}
 	gs[commitmenttypes.ModuleName] = cdc.MustMarshalJSON(&cmg)
+	if cfg.Airdrops {
+		// claimable airdrops as a production genesis carries them: intent == authority == claimer
+		var tg tokenomicstypes.GenesisState
+		cdc.MustUnmarshalJSON(gs[tokenomicstypes.ModuleName], &tg)
+		for i, ac := range all {
+			if i%4 == 3 {
+				tg.AirdropList = append(tg.AirdropList, tokenomicstypes.Airdrop{Intent: ac.Addr.String(), Authority: ac.Addr.String(), Amount: 1_000_000, Expiry: uint64(GenesisTime + 86400*365)})
+			}
+		}
+		gs[tokenomicstypes.ModuleName] = cdc.MustMarshalJSON(&tg)
+	}
 	if cfg.Inflation != 0 {
 		var tg tokenomicstypes.GenesisState
 		cdc.MustUnmarshalJSON(gs[tokenomicstypes.ModuleName], &tg)
